@@ -337,7 +337,14 @@ pub fn run_acl(seed: u64, r: &mut Report, stats: &mut crate::RunStats) {
     prof.macro_pct = 0;
     prof.steps = (15, 30);
     prof.insurance_rich_pct = 100;
-    let cfg = rand_cfg(&mut rng, &prof);
+    let mut cfg = rand_cfg(&mut rng, &prof);
+    // the extra (not live) vAMM is deployed the way scripts deploy a vAMM before the engine exists: without margin
+    // engine and insurance fund. Until its owner configures an engine nobody holds its engine role (last phase below)
+    if let Some(last) = cfg.vamms.last_mut() {
+        if !last.live {
+            last.unwired = true;
+        }
+    }
     let mut g = Gen::new(rng.fork(), prof);
     let mut h = History::new(&cfg, vec![], r, format!("acl seed={}", seed));
     g.run_history(&mut h, r);
@@ -446,6 +453,77 @@ pub fn run_acl(seed: u64, r: &mut Report, stats: &mut crate::RunStats) {
         roles.vamm_insurance = "insurance2".into();
         matrix(&mut h.w, &roles, "after-config", &exes, &mut rng, r, &base);
     }
+    unwired_phase(&mut h, &roles, &exes, r, &base);
     h.finish(r);
     stats.absorb(&h, "W-ACL");
+}
+
+/// A vAMM whose margin engine has not been configured yet (instantiated with `margin_engine: None`, then opened by its
+/// owner): the engine-only entry points have no role holder at all, so every sender must be refused.
+fn unwired_phase(h: &mut History, roles: &Roles, exes: &[String], r: &mut Report, ops_so_far: &serde_json::Value) {
+    let vi = h.w.vamms.len() - 1;
+    if !h.w.cfg.vamms[vi].unwired {
+        return;
+    }
+    // the extra vAMM keeps its deployer as owner throughout
+    let st = h.step(Op::Vamm { sender: "owner".into(), vamm: vi, msg: vm::ExecuteMsg::SetOpen { open: true } }, r);
+    let open = h.last.vamms[vi].open;
+    if !open {
+        r.inconclusive(format!("unwired vAMM could not be opened by its owner: {}", st.out.err_text()));
+        return;
+    }
+    let period = h.w.cfg.vamms[vi].funding_period;
+    h.step(Op::Advance { blocks: 10, secs: period + 5, nanos: 0 }, r);
+    let q = h.last.vamms[vi].q;
+    let b = h.last.vamms[vi].b;
+    let w = &mut h.w;
+    let mut senders: Vec<(String, String)> = vec![
+        ("vamm_owner".into(), "owner".into()),
+        ("eng_owner".into(), roles.eng_owner.clone()),
+        ("pauser".into(), roles.pauser.clone()),
+        ("engine".into(), w.engine.to_string()),
+        ("insurance".into(), w.insurance.to_string()),
+        ("vamm".into(), w.vamms[0].to_string()),
+        ("fee_pool".into(), w.fee_pool.to_string()),
+        ("pricefeed".into(), w.feed.to_string()),
+        ("vamm_engine".into(), roles.vamm_engine.clone()),
+        ("trader".into(), "alice".into()),
+        ("liquidator".into(), "liquidator".into()),
+        ("stranger".into(), "stranger".into()),
+    ];
+    for e in exes {
+        senders.push(("ex_holder".into(), e.clone()));
+    }
+    let payloads: Vec<(&str, vm::ExecuteMsg)> = vec![
+        ("swap_input", vm::ExecuteMsg::SwapInput { direction: vm::Direction::AddToAmm, quote_asset_amount: u((q / 1000).max(1)), base_asset_limit: u(0), can_go_over_fluctuation: false }),
+        ("swap_input(go_over)", vm::ExecuteMsg::SwapInput { direction: vm::Direction::RemoveFromAmm, quote_asset_amount: u((q / 1000).max(1)), base_asset_limit: u(0), can_go_over_fluctuation: true }),
+        ("swap_output", vm::ExecuteMsg::SwapOutput { direction: vm::Direction::AddToAmm, base_asset_amount: u((b / 1000).max(1)), quote_asset_limit: u(0) }),
+        ("settle_funding", vm::ExecuteMsg::SettleFunding {}),
+    ];
+    let before = w.storage_digest();
+    for (variant, msg) in payloads {
+        for (kind, addr) in &senders {
+            let cp = w.checkpoint();
+            let out = apply(w, &Op::Vamm { sender: addr.clone(), vamm: vi, msg: msg.clone() }, None);
+            let after = w.storage_digest();
+            w.restore(cp);
+            r.eval();
+            r.count("matrix-cells");
+            r.count("engine-unset-cells");
+            r.case(format!("vamm(engine unset)|{}|{}|engine-unset|{}", variant, kind, if out.ok { "ACCEPTED" } else { "refused" }));
+            if out.ok {
+                let mut rep = ops_so_far.clone();
+                rep["acl_cell"] = json!({"contract": "vamm(engine unset)", "variant": variant, "sender": addr, "phase": "engine-unset"});
+                r.violation(
+                    "C09",
+                    "R1-unauthorized-sender-accepted",
+                    format!("R1|vamm|{}|{}|engine-unset", variant, kind),
+                    format!("vAMM without a configured margin engine accepted {} from {} ({}); nobody holds the engine role yet", variant, addr, kind),
+                    0,
+                );
+            } else if after != before {
+                r.violation("C09", "R1-state-changed-on-refusal", format!("R1s|vamm|{}|{}", variant, kind), format!("vamm {} from {} was refused but state changed", variant, addr), 0);
+            }
+        }
+    }
 }
